@@ -17,7 +17,7 @@ for k in kf:
     try:
         t = subprocess.run(['cargo', 'test', '--offline'], cwd='/repo', capture_output=True, text=True).stdout
         suite = [l for l in t.split('\n') if l.startswith('test result')][:1]
-        out = subprocess.run(['./check', k['property'], '--tier', 'quick'], cwd='/verif', capture_output=True, text=True).stdout
+        out = subprocess.run(['./check', k['property'], '--tier', 'quick'], cwd='/verif', capture_output=True, text=True, env=dict(__import__('os').environ, VERIF_EVIDENCE_DIR='/tmp/verif-mutant-evidence')).stdout
         lines = [l for l in out.strip().split('\n') if l.startswith(('VIOLATION', 'PASS', 'FAIL', 'KNOWN'))]
     finally:
         subprocess.run(['git', '-C', '/repo', 'checkout', '--', '.'])
